@@ -8,7 +8,7 @@ use serde_json::{json, Value};
 
 use crate::{checks::c05::EXEC_ADDRS, exec_oracle::*, pipe, report::*, rustc_oracle::RCase, spec::*, synx};
 
-const TEXT_ONLY: &[u64] = &[0, 8, 0x123, 0x7FFF_FFFF_FFFF_FFF0, 0x7FFF_FFF0, 0x8000_0000, 0xFFFF_FFF0, 0x1_0000_0000];
+const TEXT_ONLY: &[u64] = &[0, 8, 0x123, 0x7FFF_FFFF_FFFF_FFF0, 0x7FFF_FFF0, 0x8000_0000, 0xFFFF_FFF0, 0x1_0000_0000, 0x8000_0000_0000_0000, 0xFFFF_FFFF_8000_1000, 0xFFFF_FFFF_FFFF_FFF0];
 
 #[derive(Clone, Debug)]
 struct Case {
@@ -472,7 +472,7 @@ fn run_pairs(rep: &mut Report, only_i: Option<usize>) {
 pub fn run(tier: &str, only: Option<&Value>) -> i32 {
     let mut rep = Report::new("C15", tier);
     let all = cases();
-    rep.rule = "E1: #[singleton(A)] on a type and on an enum, and `extern gv: T` with #[address(A)] for T in {u32, *mut u8, [u16; 4], a user struct, pointer to it, an enum, u64}, A over five mappable absolute addresses and four unmappable ones (text only), in decimal / hex / underscore spelling, public and private; the attribute carrying the address preceded / followed by doc lines, in its own bracket, before and after the item's other attributes; extern values without address must be rejected. Oracle X: the data page is mapped at A on the host; struct singleton: null -> None, pointer to object 1 / 2 -> exactly that object; enum singleton: each variant stored at A is returned; extern value: the returned reference is at A. Oracle S: accessor type, visibility, the address as the accessor's only integer literal (by value, however spelled), accessor bodies identical at both widths (the indirection level itself is decided by executing them). distinct = distinct (kind, address, spelling, type)".into();
+    rep.rule = "E1: #[singleton(A)] on a type and on an enum, and `extern gv: T` with #[address(A)] for T in {u32, *mut u8, [u16; 4], a user struct, pointer to it, an enum, u64}, A over five mappable absolute addresses and four unmappable ones (text only), in decimal / hex / underscore spelling, public and private; the attribute carrying the address preceded / followed by doc lines, in its own bracket, before and after the item's other attributes; extern values without address must be rejected; extern values of types imported by name and through a module, under every order in which the modules are added. Oracle X: the data page is mapped at A on the host; struct singleton: null -> None, pointer to object 1 / 2 -> exactly that object; enum singleton: each variant stored at A is returned; extern value: the returned reference is at A. Oracle S: accessor type, visibility, the address as the accessor's only integer literal (by value, however spelled), accessor bodies identical at both widths (the indirection level itself is decided by executing them). distinct = distinct (kind, address, spelling, type)".into();
     let only_i = only.map(|l| l["index"].as_u64().unwrap_or(0) as usize);
     let only_space = only.map(|l| l["space"].as_str().unwrap_or("accessors").to_string());
     if tier == "thorough" && only.is_none() || only_space.as_deref() == Some("pairs") {
@@ -514,6 +514,12 @@ pub fn run(tier: &str, only: Option<&Value>) -> i32 {
                     rep.count("rejected_address_beyond_pointer_width", 1);
                     None
                 }
+                // the upper half of the 64-bit range is not representable in the language's integers: it may be
+                // refused (at parse time or later); if it is accepted, the accessor must still address exactly it
+                (pipe::Verdict::Err(_) | pipe::Verdict::ParseErr(..), _) if c.addr >> 63 != 0 => {
+                    rep.count("rejected_address_beyond_isize", 1);
+                    None
+                }
                 (pipe::Verdict::Ok(b), _) if !b.files.contains_key("m.rs") => Some(("no_output_file_for_the_module".to_string(), format!("files: {:?}", b.files.keys().collect::<Vec<_>>()))),
                 (pipe::Verdict::Ok(b), _) => {
                     let mut r = judge_text(c, &b.files["m.rs"]);
@@ -540,6 +546,42 @@ pub fn run(tier: &str, only: Option<&Value>) -> i32 {
                 rep.violation(Violation { key, features: vec![format!("kind:{}", c.kind)], input, ps, detail, locator: json!({"space": "accessors", "index": i, "ps": ps}) });
             } else if i % 37 == 0 {
                 rep.sample(json!({"ps": ps, "input": input.render(), "verdict": v.class()}));
+            }
+        }
+    }
+    // extern values whose types come from imports, under every order in which the modules are added: the
+    // accessor's type is the one the scoping rules select (by-name import first), whatever was known when
+    if only.is_none() {
+        let provider = |n: usize| format!("pub type S {{\n    pub q: [u32; {n}],\n}}\npub enum E: u8 {{\n    Z,\n}}\n");
+        let m = "use zzz::S;\nuse aaa;\nuse zzz::E;\n#[address(0x10900)]\npub extern gv: S;\n#[address(0x10A00)]\npub extern gp: *const S;\n#[address(0x10B00)]\npub extern ge: E;\n".to_string();
+        let mods = vec![("aaa".to_string(), provider(1)), ("m".to_string(), m), ("zzz".to_string(), provider(4))];
+        for ps in [4usize, 8] {
+            for order in crate::util::permutations(3) {
+                let input = pipe::Input { modules: order.iter().map(|&k| mods[k].clone()).collect() };
+                let v = pipe::run(&input, ps);
+                rep.states += 1;
+                rep.traces += 1;
+                rep.evaluations += 1;
+                rep.transitions += 3;
+                rep.distinct_str(&format!("imports{order:?}"));
+                let viol = match &v {
+                    pipe::Verdict::Panic(p) => Some(("panic".to_string(), p.clone())),
+                    pipe::Verdict::Ok(b) => match b.files.get("m.rs").map(|t| synx::file_info(t)) {
+                        Some(Ok(fi)) => {
+                            let norm = |s: &str| s.replace(' ', "");
+                            [("get_gv", "&'static mut crate::zzz::S"), ("get_gp", "&'static mut *const crate::zzz::S"), ("get_ge", "&'static mut crate::zzz::E")].iter().find_map(|(name, want)| {
+                                let got = fi.fns.iter().find(|f| f.name == *name).and_then(|f| f.output.clone());
+                                (got.as_deref().map(norm) != Some(norm(want))).then(|| ("accessor_type_differs".to_string(), format!("{name}: expected `{want}`, emitted {got:?} (modules added in the order {:?})", order.iter().map(|&k| mods[k].0.as_str()).collect::<Vec<_>>())))
+                            })
+                        }
+                        Some(Err(e)) => Some(("output_unreadable".to_string(), e)),
+                        None => Some(("no_output_file_for_the_module".to_string(), format!("files: {:?}", b.files.keys().collect::<Vec<_>>()))),
+                    },
+                    other => Some(("valid_input_rejected".to_string(), other.err_text())),
+                };
+                if let Some((key, detail)) = viol {
+                    rep.violation(Violation { key, features: vec!["kind:extern_values_of_imported_types".into()], input, ps, detail, locator: json!({"space": "imports", "ps": ps}) });
+                }
             }
         }
     }
